@@ -134,3 +134,22 @@ Fixpoint is_prefix (r p : path) : bool :=
 Definition group_valid (g : group) : bool := g_ok g && forallb it_ok (g_items g).
 Definition call_valid (c : call) : bool :=
   forallb (fun s : mode * path * list group => forallb group_valid (snd s)) (steps c).
+
+(* os.path.join of the component list *)
+Fixpoint flatten (p : path) : string :=
+  match p with
+  | [] => EmptyString
+  | [x] => x
+  | x :: t => (x ++ String "/"%char (flatten t))%string
+  end.
+
+
+(* a path component without a slash; a key whose symbols are such components *)
+Definition slash : ascii := "/"%char.
+Definition comp_ok (s : string) : bool := nochar slash s.
+Definition key_comp_ok (k : key) : bool :=
+  match k with
+  | KAdf11 _ s _ | KPec _ s _ _ | KWvl s _ _ => comp_ok s
+  | KTcx d _ r _ | KPecTcx d _ r _ _ | KBcx d r _ _ _ => comp_ok d && comp_ok r
+  | KBstop b t _ | KBpop b _ t _ | KBem b t _ _ => comp_ok b && comp_ok t
+  end.
